@@ -844,6 +844,16 @@ func ruleTypeSwitch(c *RC) *RuleResult {
 								if sel, ok := ast.Unparen(x.Fun).(*ast.SelectorExpr); ok && setterField[sel.Sel.Name] == envField && len(x.Args) == 1 && mentions(minfo, x.Args[0], tn, f) {
 									putBack = true
 								}
+								// handed to a helper that puts its parameter there (a maker taking the sender's index, say)
+								if fo, ok := typeutil.Callee(minfo, x).(*types.Func); ok {
+									if callee := c.Prog.Funcs[fo.Origin()]; callee != nil && callee.Decl != nil && callee.Decl.Body != nil {
+										for ai, a := range x.Args {
+											if ai < len(callee.Params) && mentions(minfo, a, tn, f) && paramReaches(callee, callee.Params[ai], envField, setterField) {
+												putBack = true
+											}
+										}
+									}
+								}
 							case *ast.KeyValueExpr:
 								if id, ok := x.Key.(*ast.Ident); ok && id.Name == envField && mentions(minfo, x.Value, tn, f) {
 									putBack = true
@@ -2238,4 +2248,35 @@ func tableDispatchHazard(fn *FuncInfo) string {
 		return true
 	})
 	return why
+}
+
+// paramReaches: inside fn the parameter is stored into the field named envField — by assignment, as a literal's field
+// value, or through a one-line setter of that field.
+func paramReaches(fn *FuncInfo, prm *types.Var, envField string, setterField map[string]string) bool {
+	info := fn.Pkg.TypesInfo
+	isParam := func(e ast.Expr) bool {
+		id, ok := ast.Unparen(e).(*ast.Ident)
+		return ok && info.Uses[id] == types.Object(prm)
+	}
+	found := false
+	ast.Inspect(fn.Decl.Body, func(n ast.Node) bool {
+		switch x := n.(type) {
+		case *ast.AssignStmt:
+			for i, lhs := range x.Lhs {
+				if sel, ok := ast.Unparen(lhs).(*ast.SelectorExpr); ok && sel.Sel.Name == envField && i < len(x.Rhs) && isParam(x.Rhs[i]) {
+					found = true
+				}
+			}
+		case *ast.KeyValueExpr:
+			if id, ok := x.Key.(*ast.Ident); ok && id.Name == envField && isParam(x.Value) {
+				found = true
+			}
+		case *ast.CallExpr:
+			if sel, ok := ast.Unparen(x.Fun).(*ast.SelectorExpr); ok && setterField[sel.Sel.Name] == envField && len(x.Args) == 1 && isParam(x.Args[0]) {
+				found = true
+			}
+		}
+		return !found
+	})
+	return found
 }
